@@ -212,11 +212,47 @@ class UnitRunner:
                     ip_.eval_spec_expr(upd, env)
                 return env["result"]
             ip.call_hooks[key] = hook
+        for key, st in self.c["stubs"].items():
+            ip.call_hooks[key] = self.make_stub(key, st)
+
+    def make_stub(self, key, st):
+        def hook(ip_, f, self_val, args, kwargs):
+            local = ip_.bind_args(f, self_val, list(args), dict(kwargs))
+            env = dict(local)
+            ip_.path.assumptions.add(f"stub: {key} replaced by an assumed contract ({st.get('note', 'see sidecar')})")
+            for r_i, r in enumerate(st.get("requires", [])):
+                ip_.oblige(f"pre@{key.split('::')[1]}#{r_i}", ip_.eval_spec_expr(r, env), {"requires": r})
+            evname = st.get("event")
+            if evname:
+                ev = ip_.event(evname, list(local.values()), {})
+                ev.named = local
+                if ip_.on_effect is not None:
+                    ip_.on_effect(ev)
+            for target, decl in st.get("havoc", {}).items():
+                obj_e, _, attr = target.rpartition(".")
+                if obj_e:
+                    ip_.do_setattr(ip_.eval_spec_expr(obj_e, env), attr, ip_.make_symbolic(decl, attr))
+            for exc in st.get("raises", []):
+                flag = z3.Bool(ip_.path.fresh_name("raises_" + exc))
+                if ip_.path.branch(flag):
+                    ip_.raise_exc(exc)
+            ret = st.get("returns")
+            if isinstance(ret, str) and ret not in ("int", "bool", "bytes", "str", "real", "any"):
+                env["result"] = ip_.eval_spec_expr(ret, env)
+            else:
+                env["result"] = ip_.make_symbolic(ret, "ret_" + f.name) if ret is not None else None
+            for e in st.get("ensures", []):
+                ip_.assume(ip_.eval_spec_expr(e, env))
+            for upd in st.get("effects", []):
+                ip_.eval_spec_expr(upd, env)
+            return env["result"]
+        return hook
 
     # -- main --------------------------------------------------------------------------------------------------------
     def run(self):
         c = self.c
         ip = make_interp(self.prop, self.overrides)
+        ip.ref_fields = dict(c.get("refs") or {})
         self.install_hooks(ip)
         for lk, spec in c["loops"].items():
             fnkey, ordinal = lk.rsplit("#", 1)
